@@ -48,7 +48,7 @@ const c05StopTimeoutMs = 8000
 
 // c05Cases is the fixed, PRNG-determined case list of a run.
 func c05Cases(cfg vlib.Cfg) []*c05Spec {
-	n := cfg.N(200, 4000)
+	n := cfg.N(400, 8000)
 	var out []*c05Spec
 	for i := 0; i < n; i++ {
 		r := vlib.NewRand(cfg.Seed, "C05/case", uint64(i))
@@ -58,6 +58,10 @@ func c05Cases(cfg vlib.Cfg) []*c05Spec {
 			sp = c05TimeoutCase(r)
 		case i%3 == 1:
 			sp = c05PairCase(r, i/3)
+		case i%30 == 11:
+			sp = c05StaleCtrlFnCase(r)
+		case i%6 == 5:
+			sp = c05QuickStopCase(r)
 		default:
 			sp = c05RandomCase(r)
 		}
@@ -137,7 +141,13 @@ func c05RandomCase(r *vlib.Rand) *c05Spec {
 			if it.Kind == kTaskO && !overdueOK {
 				it.Kind = kWorker
 			}
-			if isQueueTask(it.Kind) {
+			if it.Kind == kTaskO && it.Settled && !blockQueueTaskUsed {
+				// a task with a tiny max delay is also started through the queue when the
+				// queue is free: the first one counts as the scenario's queue task; later
+				// ones are started by the schedule handler once their max delay expired
+				blockQueueTaskUsed = true
+				it.FromStart = false
+			} else if isQueueTask(it.Kind) {
 				// Queue-started tasks execute one at a time, and after a task that returns
 				// quickly the queue handler may wait out its 1-minute execution-wait limit
 				// before it starts the next one (the slot-release goroutine reads the task's
@@ -244,6 +254,13 @@ func c05RandomItem(r *vlib.Rand, ms *c05Mod, names []string, id string, cycle in
 	if it.Kind == kSvc {
 		it.Restarts = vlib.Pick(r, 0, 0, 1, 2)
 	}
+	if cycle == 1 && !isQueueTask(it.Kind) && it.Kind != kTaskO && it.Kind != kHook && r.Chance(1, 8) {
+		// submitted while the module is stopping: begins before or after the stop routine
+		it.AtStop, it.Settled, it.FromStart = true, false, false
+		if it.Wait == "latch" {
+			it.Wait = "ctx"
+		}
+	}
 	if len(it.Kind) > 6 && it.Kind[:6] == "mt_sig" {
 		it.DoneCalls = r.Range(1, 3)
 	}
@@ -337,5 +354,47 @@ func c05TimeoutCase(r *vlib.Rand) *c05Spec {
 	ms.Deps = []string{"m0"}
 	dep.Items = append(dep.Items, &c05Item{ID: "m0-w", Kind: kWorker, Settled: true, Wait: "ctx", Cycle: 1})
 	sp.Mods = []*c05Mod{ms, dep}
+	return sp
+}
+
+// c05QuickStopCase: Shutdown immediately after Start returned (the run/main.go path
+// when a late module fails, or a service that is stopped right after it came up): the
+// goroutines portbase ran the start functions in may not have finished their clean-up
+// yet when the stop sequence reaches the same module.
+func c05QuickStopCase(r *vlib.Rand) *c05Spec {
+	sp := &c05Spec{Limit: 64, StopTimeoutMs: c05StopTimeoutMs, StopVia: "shutdown"}
+	n := r.Range(1, 4)
+	names, deps, shape := c05Graph(r, n)
+	sp.Class = "quickstop:" + shape
+	for _, name := range names {
+		ms := &c05Mod{Name: name, Deps: deps[name], StopDelayMs: vlib.Pick(r, 5, 20, 20)}
+		ni := r.Range(0, 2)
+		for j := 0; j < ni; j++ {
+			it := &c05Item{ID: fmt.Sprintf("%s-i%d", name, j), Kind: vlib.Pick(r, kWorker, kSvc, "mt_start_med", "mt_start_high", "mt_sig_low", kWorkerRun),
+				Wait: vlib.Pick(r, "ctx", "ctx", "self"), LingerMs: vlib.Pick(r, 0, 1, 5), Cycle: 1, DoneCalls: 1}
+			it.FromStart = fromStartOK(it.Kind)
+			ms.Items = append(ms.Items, it)
+		}
+		sp.Mods = append(sp.Mods, ms)
+	}
+	return sp
+}
+
+// c05StaleCtrlFnCase: Shutdown right after Start while the goroutine that ran the start
+// function is held back in front of its deferred clean-up until the stop routine of the
+// same module has begun. Needs the hook point "modules.ctrlfn.done" (first statement of
+// the deferred function in startCtrlFn's goroutine, see proposed_fixes/C05-hook-ctrlfn-done.diff);
+// without that point the handler is never called and the case is a plain quick stop.
+func c05StaleCtrlFnCase(r *vlib.Rand) *c05Spec {
+	sp := &c05Spec{Class: "pair:start-cleanup-until-stopfn-begin:ctrlfn", Limit: 64, StopTimeoutMs: c05StopTimeoutMs, StopVia: "shutdown"}
+	dep := &c05Mod{Name: "m0", StopDelayMs: 0}
+	dep.Items = append(dep.Items, &c05Item{ID: "m0-w", Kind: kWorker, Settled: true, Wait: "ctx", Cycle: 1})
+	ms := &c05Mod{Name: "ma", Deps: []string{"m0"}, StopDelayMs: vlib.Pick(r, 5, 20)}
+	nb := r.Range(0, 2)
+	for j := 0; j < nb; j++ {
+		ms.Items = append(ms.Items, &c05Item{ID: fmt.Sprintf("by%d", j), Kind: vlib.Pick(r, kWorker, "mt_start_med"), Wait: "ctx", FromStart: true, Settled: true, Cycle: 1})
+	}
+	sp.Mods = []*c05Mod{ms, dep}
+	sp.Hooks = append(sp.Hooks, &hookRule{Point: "modules.ctrlfn.done", Subject: "ma", Mode: "until", Until: "stopfn.begin|ma", AfterUs: 300, MaxMs: 300})
 	return sp
 }
